@@ -329,6 +329,8 @@ def suites_for(pid, rng, tier):
         fixed("wake", CFG3, SCAN4 + ["race", "race_ok", "chain"])
         groups("wake-groups", ("std", "alloc"), FG + SG, ks)
         S.append(("wake-wait", "std", "scan", gen.gen_wait(rng, ks // 2, "w")))
+        for c in ("std", "alloc"):
+            S.append(("wake-nest(monitor only)", c, "mon", gen.gen_nest(rng, ks // 2, "x" + c[0])))
         return "wakes-nv", S
     if pid == "C02":
         fixed("own", CFG3, SCAN4 + ["race", "race_ok", "chain"], panic=0.08)
@@ -400,6 +402,7 @@ def suites_for(pid, rng, tier):
             S.append(("conc", c, "scan", gen.gen_never(rng, c, SCAN4 + ["race", "race_ok"], k, "n" + c[0])))
         fixed("conc-mixed", ("std", "alloc"), SCAN4, ks)
         groups("conc-groups", ("std", "alloc"), FG + SG, ks)
+        S.append(("conc-nest(monitor only)", "std", "mon", gen.gen_nest(rng, ks // 2, "xs", combs=("nest_jj", "nest_jr", "nest_rj", "nest_jt", "nest_gj", "nest_mm", "nest_gm"))))   # chain and zip are outside C20's second sentence
         return "polls-nv", S
     if pid in ("C13", "C14", "C15"):
         terms = {"C13": ("fe",), "C14": ("tfe", "rcol", "rcol"), "C15": ("fe", "tfe", "col", "rcol")}[pid]
@@ -455,6 +458,8 @@ def run_model(runner, coacc, kind, cfg, lines, impl):
             if m:
                 rej[m.group(1)] = f"the acceptor rejects event {m.group(2)}: {m.group(3)}"
         return rej, p.stdout.splitlines()[-1] if p.stdout else ""
+    if kind == "mon":       # monitor-only suite (nests of combinators): there is no model, the implementation's trace is judged by the monitor alone
+        return list(impl), ""
     out, rc, err = run_lines(runner, [cfg], lines)
     if len(out) != len(lines):
         raise SystemExit(f"model runner produced {len(out)} traces for {len(lines)} cases: {err}")
